@@ -347,7 +347,7 @@ def run(ctx):
     rng = gen.rng_for(ctx.seed, PID)
     leg_a(ctx, rng, 300 if ctx.quick else 3000)
     leg_c(ctx, rng, 500 if ctx.quick else 6000)
-    leg_expr(ctx, gen.rng_for(ctx.seed, PID + ":expr"), 500 if ctx.quick else 10000, 6 if ctx.quick else 10)
+    leg_expr(ctx, gen.rng_for(ctx.seed, PID + ":expr"), 500 if ctx.quick else 30000, 6 if ctx.quick else 10)
     ctx.cov["rule"] = ("leg A: canonical and deliberately broken coordinate lists / CSR triples, Lean predicate vs Python checker; leg C: random programs "
                        "(depth<=4) over 27 operation kinds and COO/GCXS/DOK inputs, every sparse result checked for canonical form, no stored fill values and "
                        "nnz == number of non-fill elements; leg expr: random Expr programs (depth <= 6 quick / 10 thorough; literal inputs with unsorted / repeated "
